@@ -108,6 +108,7 @@ fn exec_overrun(g: &mut dyn G, o: &Overrun, n: usize) -> Result<(), String> {
                 ],
                 extras: vec![],
                 pairs_first: false,
+                segment: 0,
             });
             let _ = g.merge(&*h, *left, 0);
         }
@@ -127,7 +128,7 @@ fn pick_overrun(d: &mut Driver, sel: (u8, u16, u16)) -> Option<Overrun> {
     let pres = d.r.m.alive();
     let some_present = pres.first().copied();
     let labels = pool();
-    Some(match k % 14 {
+    Some(match k % 16 {
         0 => Overrun::Add(beyond),
         1 => Overrun::Bind(beyond, some_present.unwrap_or(0), Lab::Alpha(0)),
         2 => Overrun::Bind(some_present?, beyond, Lab::Alpha(0)),
@@ -162,6 +163,58 @@ fn pick_overrun(d: &mut Driver, sel: (u8, u16, u16)) -> Option<Overrun> {
                 _ => {}
             }
             Overrun::ExtraLabel(v, w, l)
+        }
+        14 | 15 => {
+            // the 17th member arrives through a bind() that repeats an existing edge: the edge
+            // v.l -> t dangles since t's group was collected, t was added again (ungrouped),
+            // v's group is grown to exactly 16 members (all in-domain), then bind(v, t, l)
+            if cap < 22 {
+                return None;
+            }
+            let find = |m: &crate::model::Model| {
+                m.alive().into_iter().find_map(|v| {
+                    let x = m.get(v);
+                    x.group?;
+                    x.edges.iter().find(|(_, t)| *t != v && m.present(*t) && m.get(*t).group.is_none()).map(|(l, t)| (v, l.clone(), *t))
+                })
+            };
+            let mut cand = find(&d.r.m);
+            if cand.is_none() {
+                let ab = d.r.m.absent_ids();
+                if ab.len() < 20 || d.r.m.groups_alive() + 2 > MAX_GROUPS {
+                    return None;
+                }
+                let (p, q, r, t) = (ab[0], ab[1], ab[2], ab[3]);
+                let l = labels[idx(b, labels.len())].clone();
+                let x = Lab::Greek('x');
+                let pre = [
+                    Call::Add(p), Call::Add(q), Call::Add(r), Call::Add(t),
+                    Call::Bind { a: p, b: q, l: x.clone(), parsed: false },
+                    Call::Bind { a: r, b: t, l: x.clone(), parsed: false },
+                    Call::Bind { a: p, b: r, l: if d.r.m.n >= 2 && l != x { l } else { x }, parsed: false },
+                    Call::Put(q, vec![1; 9]),
+                    Call::Put(t, vec![3]),
+                    Call::Data(t),
+                    Call::Add(r),
+                ];
+                for c in pre {
+                    if !d.r.valid(&c) || !d.step(&c) {
+                        return None;
+                    }
+                }
+                cand = find(&d.r.m);
+            }
+            let (v, l, t) = cand?;
+            let g = d.r.m.get(v).group?;
+            while d.r.m.group_size(g) < MAX_GROUP {
+                let x = *d.r.m.absent_ids().first()?;
+                for c in [Call::Add(x), Call::Bind { a: x, b: v, l: Lab::Alpha(0), parsed: false }] {
+                    if !d.r.valid(&c) || !d.step(&c) {
+                        return None;
+                    }
+                }
+            }
+            Overrun::Bind(v, t, l)
         }
         _ => {
             // grow a group to exactly 16 members (in-domain), then a 17th
@@ -437,6 +490,7 @@ impl AsanEngine {
         events.push(match &over {
             Overrun::ExtraLabel(..) => "overrun.N_plus_1_labels",
             Overrun::ExtraMember(..) => "overrun.17th_member",
+            Overrun::Bind(a, b, _) if *a < cfg.cap && *b < cfg.cap => "overrun.17th_member_by_repeating_an_edge",
             _ => "overrun.id_at_or_above_capacity",
         });
         let res = exec_overrun(&mut *d.r.g, &over, cfg.n);
